@@ -1,70 +1,97 @@
 (* C05 — Program image equals the sequential layout of its statements.  Statements only; proofs in
-   Asm/Layout{Proofs,Eval,Instr,Dict,Sim,Step,Final}.v (image = reference, success assumed) and
+   Asm/Layout{Proofs,Eval,Instr,InstrD,Dict,Sim,Stage,Step,Final}.v (image = reference, success assumed) and
    Asm/Layout{EvalC,InstrC,Prog,ProgFinal,Bytes,Text,Check}.v (acceptance, statement bytes, source text).
    Model: Asm/CtxModel.v (statement loop `run_items`/`step`, end-of-file tasks, close_segment, finalize, `pipeline`),
    oracle: Asm/LayoutSpec.v (`layout_spec`: two passes; pass 2 evaluates every value in the FINAL symbol table) and
-   Asm/LayoutWf.v (`no_collision`: regions do not collide).
+   Asm/LayoutWf.v (`no_collision`: regions do not collide).  The oracle reads the file of a `.dfile "name"` statement as the
+   context does, relative to the directory of the root file: rel_fs fs path name = fs (resolve_path path name).
 
-   PARTIAL.  Everything below is proved for the following class of single-file programs (C05_class / C05_class_def):
-   labels, .addr, .align, .const, .du8/.du16/.du32, .dstr, .dhex and instruction statements, any number of regions in any
-   address order, and
+   PARTIAL.  Everything below is proved for the following class of single-file programs (C05_classw / C05_class_def):
+   labels, .addr, .align, .const, .du8/.du16/.du32, .dstr, .dhex, .dfile and instruction statements, any number of regions
+   in any address order, and
    * .du8/.du16/.du32 of ANY expression: evaluated at once, or deferred because a label / .const is defined LATER
      (same region, another region, before or after a region switch);
    * instruction statements: any mnemonic and operand forms when every symbol they mention is defined EARLIER in the file;
-     a statement mentioning a LATER symbol must be a B<cond> / BL whose target expression has a checked 64-bit value in the
-     final table (Expr/Denote.den64); CPSIE/CPSID/DMB/DSB/ISB with any operand (never looked up);
-   * no .dfile statement (and no .include/.global/.import/.export: outside the oracle's domain, C14).
+     a statement mentioning a LATER symbol may be of ANY mnemonic provided the ONE operand the mnemonic evaluates
+     (C05_eval_pos_def: the immediate of ADDS/SUBS/ADD/SUB/RSBS/ASRS/LSLS/LSRS/MOVS/MOV/CMP, the target of ADR / B<cond> / BL,
+     the second operand of LDR/LDRB/LDRH/LDRSB/LDRSH/STR/STRB/STRH, the operand of BKPT/SVC/UDF.N/UDF.W)
+       - has a checked 64-bit value in the final table (Expr/Denote.den64: labels, constants, arithmetic over them), or
+       - is a memory operand [reg + e] / [e + reg] whose offset e has such a value;
+     CPSIE/CPSID/DMB/DSB/ISB with any operand (never looked up);
+   * no .include/.global/.import/.export (outside the oracle's domain, C14).
    Proved for the class:
    * C05_layout_partial: if the pipeline reports success without diagnostics, its regions are exactly the maximal runs of the
      dictionary { address + i |-> byte i } of the reference's statements (success is a hypothesis);
    * C05_accepts_partial / C05_layout_wf_partial: success is NOT a hypothesis - a program that is well-formed per the
      reference (layout_spec defined: sizes, addresses below 2^32, operands of .addr/.align/.const valued, names fresh,
-     values in range, instructions encodable in the final table; no_collision: no byte of a statement and no .addr target on
-     a byte of an earlier statement) is assembled WITHOUT any diagnostic and its image is the reference image;
+     values in range, instructions encodable in the final table, files readable; no_collision: no byte of a statement and no
+     .addr target on a byte of an earlier statement) is assembled WITHOUT any diagnostic and its image is the reference image;
    * C05_no_placeholder_partial: that image holds at the address of every statement exactly the bytes of its value in the
      final table (no 0xBE placeholder left where a deferred value was resolved) and nothing outside the statements;
    * C05_order_independent_partial: a .du8/.du16/.du32 holds the little-endian bytes of its expression's value in the FINAL
      table, whether the symbols are defined before or after it;
+   * C05_staged_assembly, C05_placeholder_length, C05_deferral_keeps_operand: the per-mnemonic facts behind deferred instruction
+     statements - staged assembly = direct assembly; the placeholder has the length of the final encoding;
    * C05_text_partial / C05_text_spelled_partial: the same from source TEXT (characters; any separators incl. comments;
      canonical or free token spelling, redundant parentheses) through C09's character-level round trip;
    * C05_labels_partial, C05_label_next_item: the context's table = the reference's final table; a label = address of the
      next placed byte.
    Not proved (covered by the correspondence stream of props/C05.json: the implementation's image is compared with
    layout_spec on every successful program and with the model on every program):
-   * deferred instruction statements other than B<cond>/BL (ADR / LDR literal / immediates naming a later .const);
-   * .dfile (the model reads fs (resolve_path current-file name), the reference fs name; chunked write) and .include. *)
+   * a deferred instruction statement whose evaluated operand is neither valued nor of the form [reg + e] / [e + reg]
+     (e.g. `[R1 + 4 + k]`, or an operand that reduces to a register such as `R9 + k` with k = 0);
+   * .include (and .global/.import/.export).
+   FOUND (C05_finding_examples, reported, not repaired): `CMP R8, R9 + k; .const k, 0;` is REJECTED (could not encode) although
+   `.const k, 0; CMP R8, R9 + k;` assembles to CMP R8, R9: the placeholder of a deferred statement is the encoding of the
+   half-filled template (`CMP R8, #0`, not encodable).  Same for `ADD R1, R1, R2 + k`.  Only operands that reduce to a
+   REGISTER are affected - outside the class above, where the final operand is a constant or a memory operand. *)
 From Coq Require Import ZArith NArith List Bool String.
-From Trion Require Import Text.Types Text.ParseModel Expr.I64 Expr.EvalModel Expr.Denote Expr.C08Sound Arm.DisplayModel Arm.AsmStmtModel
+From Trion Require Import Text.Types Text.ParseModel Expr.I64 Expr.EvalModel Expr.Denote Expr.C08Sound Arm.Instr Arm.DisplayModel Arm.AsmStmtModel Arm.EncodeModel
   Mem.MapModel Mem.MapProofs
-  Asm.CtxModel Asm.CtxProofs Asm.LayoutSpec Asm.LayoutWf Asm.SegProofs Asm.LayoutProofs Asm.Ctx06Proofs Asm.LayoutEval Asm.LayoutInstr Asm.LayoutStep Asm.LayoutFinal
-  Asm.LayoutProgFinal Asm.LayoutBytes Asm.LayoutText Asm.LayoutCheck Mem.DictSpec Text.Render Text.ShowSpec.
+  Asm.CtxModel Asm.CtxProofs Asm.LayoutSpec Asm.LayoutWf Asm.SegProofs Asm.LayoutProofs Asm.Ctx06Proofs Asm.LayoutEval Asm.LayoutInstr Asm.LayoutInstrD Asm.LayoutStage
+  Asm.LayoutStep Asm.LayoutFinal Asm.LayoutProgFinal Asm.LayoutBytes Asm.LayoutText Asm.LayoutCheck Mem.DictSpec Text.Render Text.ShowSpec.
 From Trion Require Text.ParseProofs.
 Import ListNotations.
 Open Scope N_scope.
 
-(* The class.  C05_class fs env els: for every statement e of els, with s0 = the state pass 1 of the reference has reached
-   before e:  stmt_ok env (p_env s0) e, where
-     stmt_ok E ek (label)              = True
-     stmt_ok E ek (directive name ..)  = name is not "dfile"
-     stmt_ok E ek (instruction n args) = every identifier in args is a register or defined in ek (known_in)
-                                         \/ n is a B<cond>/BL mnemonic and every operand has a den64 value in E
-                                         \/ n is CPSIE/CPSID/DMB/DSB/ISB (no_eval: the operand is a bare identifier, never looked up).
-   The two definitions are restated here so that the statement below can be read without the proof files. *)
-Theorem C05_class_def : forall fs E els,
-  C05_class fs E els <->
-  (forall pre e post s0, els = pre ++ e :: post -> pass1 fs (mkP1 None [] []) (map e_val pre) = Some s0 ->
+(* the operand a mnemonic evaluates (position in the operand list); all other operands are register names / register lists *)
+Theorem C05_eval_pos_def : forall t,
+  eval_pos t = match t with
+               | Add _ _ _ _ | Sub _ _ _ _ | Asr _ _ _ | Lsl _ _ _ | Lsr _ _ _ | Rsb _ _ => Some 2%nat
+               | Adr _ _ | Cmp _ _ | Mov _ _ _ | Ldr _ _ _ | Ldrb _ _ _ | Ldrh _ _ _ | Str _ _ _ | Strb _ _ _ | Strh _ _ _
+               | Ldrsb _ _ _ | Ldrsh _ _ _ => Some 1%nat
+               | B _ _ | Bl _ | Bkpt _ | Svc _ | Udf _ | Udfw _ => Some 0%nat
+               | _ => None
+               end.
+Proof. reflexivity. Qed.
+
+(* The class.  C05_classw fs path E els: for every statement e of els, with s0 = the state pass 1 of the reference has reached
+   before e: labels and directives are unrestricted (a directive outside the oracle's domain makes layout_spec undefined); an
+   instruction statement satisfies one of
+     - every identifier in its operands is a register or defined in the table so far,
+     - the operand its mnemonic evaluates has a den64 value in the FINAL table E, or is [reg + e] / [e + reg] with e valued,
+     - the mnemonic is CPSIE/CPSID/DMB/DSB/ISB (no_eval: the operand is a bare identifier, never looked up).
+   The definitions are restated here so that the statements below can be read without the proof files. *)
+Theorem C05_class_def : forall fs path E els,
+  C05_classw fs path E els <->
+  (forall pre e post s0, els = pre ++ e :: post -> pass1 (rel_fs fs path) (mkP1 None [] []) (map e_val pre) = Some s0 ->
      match e_val e with
      | ELabel _ => True
-     | EDirective name _ => dir_of name <> Some DFile
+     | EDirective _ _ => True
      | EInstruction name args =>
          (forall a, In a args -> forall n, In n (LayoutEval.idents a) ->
             CtxModel.is_register n = true \/ exists v, env_get (p_env s0) n = Some v)
-         \/ (exists t, template name = Some t /\ is_branch t = true /\ forall a, In a args -> den64 (rho E) a <> None)
+         \/ (exists t pos, template name = Some t /\ eval_pos t = Some pos /\
+                forall a, nth_error args pos = Some a ->
+                  den64 (rho E) a <> None \/
+                  exists r (side : bool) e, CtxModel.is_register r = true /\ den64 (rho E) e <> None /\
+                                   a = AAddr (if side then AAdd (AIdent r) e else AAdd e (AIdent r)))
          \/ (exists t, template name = Some t /\ no_eval t = true)
      end).
 Proof.
-  intros fs E els. unfold C05_class, class_from, stmt_ok, known_in, known, LayoutSim.lkE.
+  intros fs path E els. unfold C05_classw, C05_classx, class_fromx, stmt_okx, known_in, known, LayoutSim.lkE, staged_ok, mem_ok, mem_form.
   split; intros H pre e post s0 H1 H2; specialize (H pre e post s0 H1 H2); destruct (e_val e); auto;
+    try (intros _ v _; reflexivity);
     (destruct H as [H|H]; [left|right; exact H]); intros a Ha n Hn; destruct (H a Ha n Hn) as [R|(v & F)]; auto; right.
   - destruct (env_get (p_env s0) n) as [w|]; [eauto|discriminate].
   - exists v. rewrite F. reflexivity.
@@ -75,35 +102,35 @@ Qed.
    placed statement at address + i. *)
 Theorem C05_layout_partial : forall fs path text els placed env regions,
   parse_source text = Parsed (map IOk els) None ->
-  layout_spec fs (map e_val els) = Some (placed, env) ->
-  C05_class fs env els ->
+  layout_spec (rel_fs fs path) (map e_val els) = Some (placed, env) ->
+  C05_classw fs path env els ->
   pipeline fs path text = Done Success [] regions ->
   regions = image_of placed.
-Proof. exact layout_general. Qed.
+Proof. intros fs path. exact (layout_generalx fs (rel_fs fs path) path). Qed.
 
 (* Acceptance (the converse direction): a program of the class that is WELL-FORMED PER THE REFERENCE is assembled without
    any diagnostic.  Well-formed = layout_spec is defined (pass 1: every statement has a size and an address below 2^32,
-   .addr/.align/.const operands have values in the table so far, names are fresh and not registers; pass 2: every
-   .du8/.du16/.du32 value is in range, every instruction statement assembles and encodes in the final table) and
-   Asm/LayoutWf.no_collision (an .addr never selects an address that holds a byte of an earlier statement; no byte of a
+   .addr/.align/.const operands have values in the table so far, names are fresh and not registers, .dfile files exist;
+   pass 2: every .du8/.du16/.du32 value is in range, every instruction statement assembles and encodes in the final table)
+   and Asm/LayoutWf.no_collision (an .addr never selects an address that holds a byte of an earlier statement; no byte of a
    statement falls on a byte of an earlier statement). *)
 Theorem C05_accepts_partial : forall fs path text els placed env,
   parse_source text = Parsed (map IOk els) None ->
-  layout_spec fs (map e_val els) = Some (placed, env) ->
-  C05_class fs env els ->
-  no_collision fs (map e_val els) ->
+  layout_spec (rel_fs fs path) (map e_val els) = Some (placed, env) ->
+  C05_classw fs path env els ->
+  no_collision (rel_fs fs path) (map e_val els) ->
   exists regions, pipeline fs path text = Done Success [] regions.
-Proof. exact pipeline_accepts. Qed.
+Proof. intros fs path. exact (pipeline_acceptsx fs (rel_fs fs path) path). Qed.
 
 (* ... so success is no longer a hypothesis: for every program of the class that is well-formed per the reference, the
    pipeline's result IS the reference image, without diagnostics *)
 Theorem C05_layout_wf_partial : forall fs path text els placed env,
   parse_source text = Parsed (map IOk els) None ->
-  layout_spec fs (map e_val els) = Some (placed, env) ->
-  C05_class fs env els ->
-  no_collision fs (map e_val els) ->
+  layout_spec (rel_fs fs path) (map e_val els) = Some (placed, env) ->
+  C05_classw fs path env els ->
+  no_collision (rel_fs fs path) (map e_val els) ->
   pipeline fs path text = Done Success [] (image_of placed).
-Proof. exact layout_accepts. Qed.
+Proof. intros fs path. exact (layout_acceptsx fs (rel_fs fs path) path). Qed.
 
 (* No placeholder left, nothing else: the image is the runs of a dictionary that holds, at the address of EVERY reference
    statement, exactly the bytes pass 2 computed for it in the final table (for a deferred statement: the bytes of its
@@ -111,45 +138,83 @@ Proof. exact layout_accepts. Qed.
    image_dict placed = the dictionary { address + i |-> byte i } of the placed statements; image_of = runs of it. *)
 Theorem C05_no_placeholder_partial : forall fs path text els placed env,
   parse_source text = Parsed (map IOk els) None ->
-  layout_spec fs (map e_val els) = Some (placed, env) -> C05_class fs env els -> no_collision fs (map e_val els) ->
+  layout_spec (rel_fs fs path) (map e_val els) = Some (placed, env) -> C05_classw fs path env els ->
+  no_collision (rel_fs fs path) (map e_val els) ->
   pipeline fs path text = Done Success [] (runs (image_dict placed)) /\
   (forall a bs ids, In (a, bs, ids) placed -> forall x, a <= x -> x < a + MapModel.len bs ->
      d_get (image_dict placed) x = nth_error bs (N.to_nat (x - a))) /\
   (forall x, d_get (image_dict placed) x <> None -> exists a bs ids, In (a, bs, ids) placed /\ a <= x /\ x < a + MapModel.len bs).
-Proof. exact no_placeholder. Qed.
+Proof. intros fs path. exact (no_placeholderx fs (rel_fs fs path) path). Qed.
 
 (* Order independence: every .du8/.du16/.du32 statement (at the address a pass 1 has reached before it) holds the
    little-endian bytes of the value its expression has in the FINAL table env - the same bytes whether the labels and
    constants it mentions are defined before or after it, in the same or in another region. *)
 Theorem C05_order_independent_partial : forall fs path text els placed env,
   parse_source text = Parsed (map IOk els) None ->
-  layout_spec fs (map e_val els) = Some (placed, env) -> C05_class fs env els -> no_collision fs (map e_val els) ->
+  layout_spec (rel_fs fs path) (map e_val els) = Some (placed, env) -> C05_classw fs path env els ->
+  no_collision (rel_fs fs path) (map e_val els) ->
   pipeline fs path text = Done Success [] (runs (image_dict placed)) /\
   forall pre name e post s0 a k,
     map e_val els = pre ++ EDirective name [e] :: post -> dir_of name = Some (DData k) ->
-    pass1 fs (mkP1 None [] []) pre = Some s0 -> p_cur s0 = Some a ->
+    pass1 (rel_fs fs path) (mkP1 None [] []) pre = Some s0 -> p_cur s0 = Some a ->
     exists v, den64 (rho env) e = Some v /\ (0 <= v <= dk_max k)%Z /\
       forall x, a <= x -> x < a + dk_size k ->
         d_get (image_dict placed) x = nth_error (le_n (dk_size k) (Z.to_N v)) (N.to_nat (x - a)).
-Proof. exact order_independent. Qed.
+Proof. intros fs path. exact (order_independentx fs (rel_fs fs path) path). Qed.
+
+(* Deferred instruction statements, per mnemonic (any evaluator ev - the context's or the reference's):
+   (1) a statement that is deferred keeps its operands, with exactly the operand its mnemonic evaluates replaced by the tree the
+       failed / deferred evaluation left; *)
+Theorem C05_deferral_keeps_operand : forall ev l addr t args c a1,
+  assemble_args ev l addr t (mkAst args 0) = CDefer c a1 ->
+  exists pos x x' sx, eval_pos t = Some pos /\ nth_error args pos = Some x /\ ev x = (x', sx) /\
+    sx <> SComplete /\ sx <> SEvalError /\ a1 = mkAst (AsmStmtModel.set_nth pos x' args) 0.
+Proof. exact assemble_args_defer_pos. Qed.
+
+(* (2) staged assembly = direct assembly: replacing that operand by any tree the evaluator takes to the same result does not
+       change the assembled instruction (for the context: Asm/LayoutStage.stage_stg shows that the tree a deferral keeps for an
+       operand of the class is such a tree w.r.t. the final table); *)
+Theorem C05_staged_assembly : forall ev l addr t args pos a0 a1 i s,
+  eval_pos t = Some pos -> nth_error args pos = Some a0 ->
+  (forall x, ev a0 = (x, SComplete) -> ev a1 = (x, SComplete)) ->
+  assemble_args ev l addr t (mkAst args 0) = COk i s ->
+  assemble_args ev l addr t (mkAst (AsmStmtModel.set_nth pos a1 args) 0) = COk i s.
+Proof. exact assemble_args_swap. Qed.
+
+(* (3) the placeholder has the length of the final encoding: the context encodes the half-filled template
+       (CtxModel.partial_instr: registers converted so far, the mnemonic table's default for the rest) to learn the length.
+       Whenever the final statement assembles and encodes and its evaluated operand came out as a constant or a memory
+       operand, the half-filled template encodes too, with the same number of halfwords.  (Not so when the operand reduces
+       to a register: C05_finding_examples.) *)
+Theorem C05_placeholder_length : forall ev l addr name t args pos a v x' iF sF hws,
+  template name = Some t -> eval_pos t = Some pos -> nth_error args pos = Some a -> ev a = (v, SComplete) ->
+  (exists w, v = AConst w) \/ (exists inner, v = AAddr inner) ->
+  assemble_args ev l addr t (mkAst args 0) = COk iF sF -> enc iF = EncOk hws ->
+  exists hws', enc (partial_instr t (mkAst (AsmStmtModel.set_nth pos x' args) 0)) = EncOk hws' /\ List.length hws' = List.length hws.
+Proof. exact placeholder_length. Qed.
 
 (* From source TEXT (C09's character-level round trip discharges the parse hypothesis): statements written as characters
    with any separators (white space, line comments, block comments) - canonical token spelling ... *)
-Theorem C05_class_v_def : forall fs E stmts,
-  C05_class_v fs E stmts <->
-  (forall pre e post s0, stmts = pre ++ e :: post -> pass1 fs (mkP1 None [] []) pre = Some s0 ->
+Theorem C05_class_v_def : forall fs path E stmts,
+  C05_class_vw fs path E stmts <->
+  (forall pre e post s0, stmts = pre ++ e :: post -> pass1 (rel_fs fs path) (mkP1 None [] []) pre = Some s0 ->
      match e with
      | ELabel _ => True
-     | EDirective name _ => dir_of name <> Some DFile
+     | EDirective _ _ => True
      | EInstruction name args =>
          (forall a, In a args -> forall n, In n (LayoutEval.idents a) ->
             CtxModel.is_register n = true \/ exists v, env_get (p_env s0) n = Some v)
-         \/ (exists t, template name = Some t /\ is_branch t = true /\ forall a, In a args -> den64 (rho E) a <> None)
+         \/ (exists t pos, template name = Some t /\ eval_pos t = Some pos /\
+                forall a, nth_error args pos = Some a ->
+                  den64 (rho E) a <> None \/
+                  exists r (side : bool) e, CtxModel.is_register r = true /\ den64 (rho E) e <> None /\
+                                   a = AAddr (if side then AAdd (AIdent r) e else AAdd e (AIdent r)))
          \/ (exists t, template name = Some t /\ no_eval t = true)
      end).
 Proof.
-  intros fs E stmts. unfold C05_class_v, stmt_ok, known_in, known, LayoutSim.lkE.
+  intros fs path E stmts. unfold C05_class_vw, C05_class_vx, stmt_okx, known_in, known, LayoutSim.lkE, staged_ok, mem_ok, mem_form.
   split; intros H pre e post s0 H1 H2; specialize (H pre e post s0 H1 H2); destruct e; auto;
+    try (intros _ v _; reflexivity);
     (destruct H as [H|H]; [left|right; exact H]); intros a Ha n Hn; destruct (H a Ha n Hn) as [R|(v & F)]; auto; right.
   - destruct (env_get (p_env s0) n) as [w|]; [eauto|discriminate].
   - exists v. rewrite F. reflexivity.
@@ -157,25 +222,25 @@ Qed.
 
 Theorem C05_text_partial : forall fs path stmts seps placed env,
   forallb writable_stmt stmts = true -> seps_ok (render_stmts stmts) seps ->
-  layout_spec fs stmts = Some (placed, env) -> C05_class_v fs env stmts -> no_collision fs stmts ->
+  layout_spec (rel_fs fs path) stmts = Some (placed, env) -> C05_class_vw fs path env stmts -> no_collision (rel_fs fs path) stmts ->
   pipeline fs path (show (render_stmts stmts) seps) = Done Success [] (image_of placed).
-Proof. exact text_layout. Qed.
+Proof. intros fs path. exact (text_layoutx fs (rel_fs fs path) path). Qed.
 
 (* ... and with a free choice of spelling per token (radix, digit case, leading zeros, character literals, string
    escapes: ShowSpec.wtok) and redundant parentheses anywhere (ParseProofs.RendStmts) *)
 Theorem C05_text_spelled_partial : forall fs path stmts ws seps placed env,
   ParseProofs.RendStmts stmts (map wtok_val ws) -> Forall wtok_ok ws -> wseps_ok ws seps ->
-  layout_spec fs stmts = Some (placed, env) -> C05_class_v fs env stmts -> no_collision fs stmts ->
+  layout_spec (rel_fs fs path) stmts = Some (placed, env) -> C05_class_vw fs path env stmts -> no_collision (rel_fs fs path) stmts ->
   pipeline fs path (showw ws seps) = Done Success [] (image_of placed).
-Proof. exact textw_layout. Qed.
+Proof. intros fs path. exact (textw_layoutx fs (rel_fs fs path) path). Qed.
 
 (* Labels and constants: at the end of the statement loop the context's table is the reference's final table
    (a success of the loop without diagnostics is all that is assumed of the context) ... *)
 Theorem C05_labels_partial : forall fs inc path els placed env st',
-  inc_ok inc -> layout_spec fs (map e_val els) = Some (placed, env) -> C05_class fs env els ->
+  inc_ok inc -> layout_spec (rel_fs fs path) (map e_val els) = Some (placed, env) -> C05_classw fs path env els ->
   run_items false fs inc (map IOk els) (fst (enter_file init_state path)) = Ret None st' -> errors st' = [] ->
   forall n, get_constant st' n RLocal = Some (match env_get env n with Some v => Found v | None => NotFound end).
-Proof. exact labels_general. Qed.
+Proof. intros fs inc path. exact (labels_generalx fs (rel_fs fs path) inc path). Qed.
 
 (* ... and in the reference a label's value is the address of the statement placed next, i.e. of the byte that follows it *)
 Theorem C05_label_next_item : forall fs s n s1 e s2 a it,
@@ -234,29 +299,46 @@ Proof. exact evaluate_mut_agrees. Qed.
 Theorem C05_no_collision_check : forall fs prog, nc_check fs (mkP1 None [] []) prog = true -> no_collision fs prog.
 Proof. exact nc_check_sound. Qed.
 
-Theorem C05_class_check : forall fs E prog, class_check fs E (mkP1 None [] []) prog = true -> C05_class_v fs E prog.
-Proof. exact class_check_sound. Qed.
+Theorem C05_class_check : forall fs path E prog,
+  class_checkw (rel_fs fs path) E (mkP1 None [] []) prog = true -> C05_class_vw fs path E prog.
+Proof. exact class_checkw_sound. Qed.
 
 Open Scope string_scope.
-(* non-vacuity: forward branch (deferred), DMB SY (operand never looked up), .align padding, region switch, a .du32 of a
-   forward label plus a forward constant; the pipeline's image and the two-pass reference agree, and the program satisfies
-   the hypotheses of C05_layout_wf_partial / C05_text_partial (class and no_collision, by their executable checks) *)
+(* non-vacuity: statements deferred by LATER definitions - ADR and LDR literal of a forward label, ADDS / MOVS / CMP / LSLS / SVC
+   with a forward constant, LDR [R1 + off] and STR [off + SP] with a forward offset, a forward branch, a .du8 / .du32 of forward
+   names -, DMB SY (operand never looked up), .align padding, a .dfile, a region switch; the pipeline's image and the two-pass
+   reference agree, and the program satisfies the hypotheses of C05_layout_wf_partial / C05_text_partial (class and
+   no_collision, by their executable checks).  The real assembler produces the same image for this text. *)
 Theorem C05_examples :
   let src := bytes_of_string in
-  let nofs : str -> option (list N) := fun _ => None in
-  let t := src ".addr 0x100; B later; DMB SY; .align 4; .addr 0x200; NOP; later: .du32 later + k; .const k, 2;" in
-  pipeline nofs (src "root.asm") t
-    = Done Success [] [(0x100, 0x107, [127; 224; 191; 243; 95; 143; 190; 190]); (0x200, 0x205, [0; 191; 4; 2; 0; 0])]
+  let fs : str -> option (list N) := fun v => if AsmStmtModel.str_eqb v (src "blob.bin") then Some [1; 2; 3] else None in
+  let root := src "root.asm" in
+  let t := src ".addr 0x100; ADR R0, lit; LDR R1, lit; ADDS R2, R2, k; MOVS R3, k; CMP R4, k; LSLS R5, R6, sh; LDR R7, [R1 + off]; STR R0, [off + SP]; SVC k; B later; DMB SY; .du8 k; .align 4; lit: .du32 later + k; .dfile ""blob.bin""; .addr 0x200; NOP; later: .const k, 2; .const sh, 3; .const off, 4;" in
+  let img := [(0x100, 0x122, [6; 160; 6; 73; 2; 50; 2; 35; 2; 44; 245; 0; 79; 104; 1; 144; 2; 223; 118; 224; 191; 243; 95; 143;
+                              2; 190; 190; 190; 4; 2; 0; 0; 1; 2; 3]); (0x200, 0x201, [0; 191])] in
+  pipeline fs root t = Done Success [] img
   /\ match parse_source t with
      | Parsed items None =>
          let stmts := flat_map (fun i => match i with ParseModel.IOk e => [e_val e] | _ => [] end) items in
-         option_map (fun r => (map (fun x => (fst (fst x), snd (fst x))) (fst r), image_of (fst r))) (layout_spec nofs stmts)
-         = Some ([(0x100, [127; 224]); (0x102, [191; 243; 95; 143]); (0x106, [190; 190]); (0x200, [0; 191]); (0x202, [4; 2; 0; 0])],
-                 [(0x100, 0x107, [127; 224; 191; 243; 95; 143; 190; 190]); (0x200, 0x205, [0; 191; 4; 2; 0; 0])])
-         /\ match layout_spec nofs stmts with
-            | Some (_, env) => class_check nofs env (mkP1 None [] []) stmts = true /\ nc_check nofs (mkP1 None [] []) stmts = true
+         option_map (fun r => (map (fun x => (fst (fst x), snd (fst x))) (fst r), image_of (fst r))) (layout_spec (rel_fs fs root) stmts)
+         = Some ([(0x100, [6; 160]); (0x102, [6; 73]); (0x104, [2; 50]); (0x106, [2; 35]); (0x108, [2; 44]); (0x10A, [245; 0]);
+                  (0x10C, [79; 104]); (0x10E, [1; 144]); (0x110, [2; 223]); (0x112, [118; 224]); (0x114, [191; 243; 95; 143]);
+                  (0x118, [2]); (0x119, [190; 190; 190]); (0x11C, [4; 2; 0; 0]); (0x120, [1; 2; 3]); (0x200, [0; 191])], img)
+         /\ match layout_spec (rel_fs fs root) stmts with
+            | Some (_, env) => class_checkw (rel_fs fs root) env (mkP1 None [] []) stmts = true /\ nc_check (rel_fs fs root) (mkP1 None [] []) stmts = true
             | None => False
             end
      | _ => False
      end.
 Proof. vm_compute. repeat split; reflexivity. Qed.
+
+(* FINDING (model = implementation, confirmed on the real assembler): a deferred statement whose operand reduces to a REGISTER.
+   With k defined before the statement `CMP R8, R9 + k` (k = 0) assembles to CMP R8, R9 (0x45C8); with k defined after it the
+   statement is rejected (could not encode), because the placeholder is the encoding of the half-filled template CMP R8, #0. *)
+Theorem C05_finding_examples :
+  let src := bytes_of_string in
+  let nofs : str -> option (list N) := fun _ => None in
+  pipeline nofs (src "root.asm") (src ".addr 0x100; .const k, 0; CMP R8, R9 + k;") = Done Success [] [(0x100, 0x101, [200; 69])]
+  /\ pipeline nofs (src "root.asm") (src ".addr 0x100; CMP R8, R9 + k; .const k, 0;")
+     = Done Failure [mkDiag (src "root.asm") 1 14 (KInstr DEncode)] [].
+Proof. vm_compute. split; reflexivity. Qed.
